@@ -7,4 +7,4 @@ Extraction "extracted/C19_model.ml" xb_types substr_call substr_seq atoi parse_c
   delivered body_complete go_make read_body read_body_announced step_sink shoot_step_wire base_shoot_wire
   client_loop client_do default_check always_check single_trip base_shoot_do shoot_step_do base_shoot_redir followed last_step
   grpc_scn_step grpc_scn_shoot grpc_scn_executed mk_gstep grpc_code
-  grpc_shoot_timed instance_timed code_ctx result_of effective_timeout.
+  grpc_shoot_timed instance_timed code_ctx result_of effective_timeout scenario_timed gstep_of.
